@@ -20,6 +20,19 @@ import minif
 from props import c01_gen
 
 FLAGS = ("-fcheck=bounds", "-ffree-line-length-none")
+FAMILIES = ("corpus", "where-order", "random", "known")
+
+
+def families():
+    """C01_FAMILY=corpus,where-order,random,known (development aid; default: all)"""
+    sel = os.environ.get("C01_FAMILY", "").strip()
+    if not sel:
+        return set(FAMILIES)
+    got = {x.strip() for x in sel.split(",") if x.strip()}
+    bad = got - set(FAMILIES)
+    if bad:
+        raise common.Infra(f"C01_FAMILY: unknown family {sorted(bad)}; known: {FAMILIES}")
+    return got
 
 
 # ---------------------------------------------------------------------------------------
@@ -446,11 +459,24 @@ def run(chk):
                                "MiniF semantics (validated against gfortran by harness/minif_selftest.py)",
                                "harness/props/c01.py exporter + c01_gen.py generator", "fparser2, gfortran"]
     chk.lean()
-    thorough = chk.tier == "thorough"
-    nprog = 1500 if thorough else 70
-    nrun = 1500 if thorough else 70        # every program goes through gfortran
-    rng = chk.rng
+    fams = families()
+    chk.cov["families_run"] = sorted(fams)
+    if "corpus" in fams:
+        run_corpus(chk)
+    if "where-order" in fams and len(chk.violations) < 3:
+        from props import c01_where
+        c01_where.run_family(chk, __import__("sys").modules[__name__])
+    if "random" in fams and len(chk.violations) < 3:
+        run_random(chk)
+    # known findings: replay the witnesses
+    if "known" in fams:
+        for e in common.known_findings("C01"):
+            v, d, _ = property_on_source(e["witness"]["source"])
+            if v == "fail":
+                chk.known(e["what"])
 
+
+def run_corpus(chk):
     # corpus first: hand-written programs and minimised past failures
     known_ids = {e["id"] for e in common.known_findings("C01")}
     cdir = os.path.join(common.ROOT, "corpus", "C01")
@@ -470,6 +496,12 @@ def run(chk):
                            "expected": "re-written program compiles and prints the same values as the original"})
     chk.cov["corpus_programs"] = ncorpus
 
+
+def run_random(chk):
+    thorough = chk.tier == "thorough"
+    nprog = 1500 if thorough else 70
+    nrun = 1500 if thorough else 70        # every program goes through gfortran
+    rng = chk.rng
     # does the live reader compare construct names case-sensitively?  (known finding; the generator's expected
     # Loop-vs-CodeBlock structure follows the code, the behavioural failure is caught by gfortran either way)
     st, out, _ = rewrite(NAME_CASE_PROBE)
@@ -605,12 +637,6 @@ def run(chk):
                            str(chk.cov.get("invalid_generated", [])[:2]))
     chk.cov["distribution"] = stats
     chk.cov["features"] = dict(sorted(feats.items()))
-
-    # known findings: replay the witnesses
-    for e in common.known_findings("C01"):
-        v, d, _ = property_on_source(e["witness"]["source"])
-        if v == "fail":
-            chk.known(e["what"])
 
 
 def replay(payload):
